@@ -711,6 +711,11 @@ typedef struct _rfbClientRec {
     int tightPngDstDataLen;
 #endif
 #endif
+#ifdef LIBVNCSERVER_HAVE_LIBPTHREAD
+    /** Set by rfbShutdownServer() while it holds a reference on the client: it will join
+     *  client_thread. A client thread that ends without it detaches itself. */
+    rfbBool clientThreadJoinedByShutdown;
+#endif
 } rfbClientRec, *rfbClientPtr;
 
 /**
